@@ -173,6 +173,10 @@ loop:
 			p.setState(types.ProcessStateLaunched)
 			p.waitForDaemonCompletion()
 		}
+		// every launch is probed afresh (initial delay, failure counters): a prober that
+		// carried on across a restart never reached failure_threshold "in a row" again
+		p.stopProbes()
+		p.forgetDaemonStopped()
 
 		if !p.isRestartable() {
 			break
